@@ -831,6 +831,7 @@ def judge(ctx: Ctx, st: Optional[LeanStatus], specs: List[Dict[str, Any]], res: 
                 res.count("exception:" + ir["exc"])
             if snap_before != snap_after and in_scope:
                 res.failures.append(Failure("caller-variables-modified", None, case, "the variables passed in were changed by execute"))
+            sig = None
             if in_scope:
                 sig = oracle(b, shape, ir)
                 if sig:
@@ -845,7 +846,10 @@ def judge(ctx: Ctx, st: Optional[LeanStatus], specs: List[Dict[str, Any]], res: 
                 mv = model_view(mo["request"], b)
                 iv = impl_view(ir, mo["request"], b)
                 if not views_equal(iv, mv):
-                    res.mismatches.append(Mismatch("execute", case, iv, mv))
+                    # inside a finding region where the implementation now satisfies the property the
+                    # disagreement means "finding no longer reproduces", not a broken tie (DESIGN.md §1.4)
+                    region = next((t for t in (TRIG_F2, TRIG_F1) if trig[t]), None)
+                    res.mismatches.append(Mismatch("execute", case, iv, mv, trigger=region if (in_scope and sig is None) else None))
                 if ir.get("r") in ("json", "multipart") and mo["client_unchanged"] != ir.get("client_unchanged"):
                     res.mismatches.append(Mismatch("client-frame", case, ir.get("client_unchanged"), mo["client_unchanged"]))
                 if i == 0:
@@ -1047,12 +1051,12 @@ def run(ctx: Ctx, st: Optional[LeanStatus]) -> Result:
         replay_witnesses(ctx, res, rig)
         specs = [s for _, s in corpus_specs() if "query" in s] + HAND_CASES
         rng = ctx.sub_rng("calls")
-        specs += [gen_call(rng, n) for n in range(ctx.budget(2500, 40000))]
+        specs += [gen_call(rng, n) for n in range(ctx.budget(2500, 20000))]
         for lo in range(0, len(specs), 2000):
             judge(ctx, st, specs[lo: lo + 2000], res, rig)
     finally:
         rig.close()
-    concurrency(ctx, res, rounds=ctx.budget(6, 60), width=6)
+    concurrency(ctx, res, rounds=ctx.budget(6, 40), width=6)
     res.oracle_only += [
         "httpx: header normalisation, merge of client-level and per-request headers, multipart encoding (boundary, part order, file part headers) — observed on the captured request, not modelled",
         "pydantic: model_dump(by_alias=True, exclude_unset=True) and to_jsonable_python results are inputs of the model, computed with the real library",
@@ -1071,12 +1075,12 @@ def search(ctx: Ctx) -> Result:
     rig = Rig()
     try:
         rng = ctx.sub_rng("search")
-        specs = [gen_call(rng, n) for n in range(30000)]
+        specs = [gen_call(rng, n) for n in range(10000)]
         for lo in range(0, len(specs), 2000):
             judge(ctx, None, specs[lo: lo + 2000], res, rig)
     finally:
         rig.close()
-    concurrency(ctx, res, rounds=40, width=6)
+    concurrency(ctx, res, rounds=20, width=6)
     return res
 
 
